@@ -97,7 +97,6 @@ section
 variable {E : Env} (hE : EnvOK E) (hG : GraphWF E.G)
 include hE hG
 
-omit hE in
 theorem R_lt {c s t : Nat} (hs : s < E.G.nS) (h : E.G.R c s t) : t < E.G.nS := by
   rcases h with ⟨j, _, hj⟩ | ⟨_, rfl⟩
   · exact hG.step_lt c j s t hj hs
